@@ -257,10 +257,29 @@ func (g *CG) Callees(site ssa.CallInstruction) (fns []*ssa.Function, external bo
 	if _, ok := c.Value.(*ssa.Builtin); ok {
 		return nil, false
 	}
-	if !c.IsInvoke() {
+	if !c.IsInvoke() && g.p.cache["cgmode"] != "cha" {
 		if lit, ok := mapLiteralClosures(c.Value); ok {
 			return lit, false
 		}
+	}
+	if g.p.cache["cgmode"] == "cha" {
+		fns = edgesAt(g.cha, site)
+		var keep []*ssa.Function
+		for _, f := range fns {
+			if f.Blocks == nil {
+				external = true
+				continue
+			}
+			keep = append(keep, f)
+		}
+		if c.IsInvoke() {
+			if nt := namedOf(c.Value.Type()); nt == nil || nt.Obj().Pkg() != g.p.Pkg {
+				if _, isAnon := types.Unalias(c.Value.Type()).(*types.Interface); !isAnon {
+					external = true
+				}
+			}
+		}
+		return keep, external
 	}
 	fns = edgesAt(g.vta, site)
 	if c.IsInvoke() {
